@@ -150,6 +150,27 @@ static void onsig(int sig)
 }
 static void loghandler(const char *m, void *d) { (void)d; msgs++; msgbytes += (long)strlen(m); }
 
+/* ---------------------------------------------------------------- exact-driver hooks (QSOPT_EX_VERIF) */
+extern void (*QSexact_verif_hook) (const char *ev, int a, int b);
+extern int (*QSexact_verif_fault) (const char *where);
+#define MAXHK 256
+static struct { const char *e; int a, b; } hk[MAXHK]; static int nhk = 0, hk_over = 0;
+static void hookfn(const char *ev, int a, int b) { if (nhk < MAXHK) { hk[nhk].e = ev; hk[nhk].a = a; hk[nhk].b = b; nhk++; } else hk_over = 1; }
+static int fault_opt = 0, fault_inf = 0;   /* number of coming tests to fail (-1 = all) */
+static int faultfn(const char *where)
+{
+	int *c = !strcmp(where, "opt_test") ? &fault_opt : &fault_inf;
+	if (*c == 0) return 0;
+	if (*c > 0) (*c)--;
+	return 1;
+}
+static void J_hooks(void)
+{
+	int i; jkey("hook"); jraw("[");
+	for (i = 0; i < nhk; i++) { if (i) jraw(","); jraw("{\"e\":"); jstrv(hk[i].e); jraw(",\"a\":"); jintv(hk[i].a); jraw(",\"b\":"); jintv(hk[i].b); jraw("}"); }
+	jraw("]"); J_int("hook_over", hk_over);
+}
+
 /* ---------------------------------------------------------------- helpers */
 static mpq_t *qalloc(int n) { int i; mpq_t *a = malloc((n > 0 ? n : 1) * sizeof(mpq_t)); for (i = 0; i < n; i++) mpq_init(a[i]); return a; }
 static void qfree(mpq_t *a, int n) { int i; if (!a) return; for (i = 0; i < n; i++) mpq_clear(a[i]); free(a); }
@@ -324,6 +345,8 @@ int main(int argc, char **argv)
 	load_tokens(argv[1]);
 	QSexactStart();
 	QSexact_set_precision(128);
+	QSexact_verif_hook = hookfn;
+	QSexact_verif_fault = faultfn;
 	while (tp < ntok) {
 		char *c = nx();
 		if (!strcmp(c, "#")) { /* comment token followed by one word */ nx(); continue; }
@@ -331,6 +354,7 @@ int main(int argc, char **argv)
 			if (!strcmp(s, "on")) { QSlog_set_handler(loghandler, NULL); handler_on = 1; } else { QSlog_set_handler(NULL, NULL); handler_on = 0; }
 			disarm(); ev_end(NULL); }
 		else if (!strcmp(c, "precision")) { int b = nxi(); ev_begin("precision"); J_int("bits", b); arm(); QSexact_set_precision((unsigned)b); disarm(); ev_end(NULL); }
+		else if (!strcmp(c, "fault")) { char *w = nx(); int k = nxi(); ev_begin("fault"); J_str("where", w); J_int("count", k); arm(); if (!strcmp(w, "opt_test")) fault_opt = k; else fault_inf = k; disarm(); ev_end(NULL); }
 		else if (!strcmp(c, "scenario")) { char *s = nx(); ev_begin("scenario"); J_str("id", s); arm(); disarm(); ev_end(NULL); }
 		else if (!strcmp(c, "create")) { int h = nxh(); const char *nm = nxname(); char *s = nx(); int os = !strcmp(s, "min") ? QS_MIN : !strcmp(s, "max") ? QS_MAX : atoi(s);
 			ev_begin("create"); J_hname("h", h); J_str("name", nm); J_int("objsense", os); arm();
@@ -438,7 +462,8 @@ int main(int argc, char **argv)
 			ev_begin(c); J_hname("h", h); J_str("algo", a); J_bname("b", b); J_int("wantxy", wantxy);
 			if (b >= 0 && !B[b]) { B[b] = calloc(1, sizeof(QSbasis)); }
 			if (b >= 0) { jkey("bin"); jraw("{"); jfirst = 1; J_qsbasis("cstat", "rstat", B[b]); jraw("}"); jfirst = 0; }
-			arm(); rv = QSexact_solver(H[h], x, y, b >= 0 ? B[b] : NULL, algo, &st); disarm(); J_int("rval", rv); J_int("status", st);
+			nhk = 0; hk_over = 0;
+			arm(); rv = QSexact_solver(H[h], x, y, b >= 0 ? B[b] : NULL, algo, &st); disarm(); J_int("rval", rv); J_int("status", st); J_hooks();
 			if (wantxy) { J_qarr("x", x, n + m); J_qarr("y", y, m); }
 			if (b >= 0) { jkey("bout"); jraw("{"); jfirst = 1; J_qsbasis("cstat", "rstat", B[b]); jraw("}"); jfirst = 0; }
 			ev_end(H[h]); if (x) qfree(x, n + m); if (y) qfree(y, m); }
